@@ -1004,3 +1004,98 @@ def _restored(f, d, k):
                             and cfg.in_every_iteration(n.id, m.id):
                         return True
     return False
+
+
+# ------------------------------------------------------------------------------------ R-OPTSIDE
+
+SIDE = {'treeinput': 'src_opts', 'grammarinput': 'src_opts',
+        'treeoutput': 'dest_opts', 'grammaroutput': 'dest_opts', 'transitionoutput': 'dest_opts'}
+OPTION_ATTRS = ('src_opts', 'dest_opts', 'params', 'transformparams', 'markov')
+
+
+def r_optside(prog, tier):
+    """Every reader the drivers dispatch to receives the --src-opts options, every writer the --dest-opts options."""
+    obs = []
+    n = 0
+    for mod in ('transform', 'grammar', 'transitions', 'treeanalysis'):
+        f = prog.func(mod, 'run')
+        _ALIAS_FUNC[0] = f
+        for x in walk_own(f.node):
+            if not isinstance(x, ast.Call):
+                continue
+            d = _getattr_dispatch(x)
+            if not d or d[0] not in f.module.aliases:
+                continue
+            target = f.module.aliases[d[0]]
+            want = SIDE.get(target)
+            if want is None:
+                continue
+            star = _starstar(x)
+            if star is None:
+                continue        # the call passes no option dictionary (nothing to mix up)
+            n += 1
+            got = [a for a in OPTION_ATTRS if 'args.%s' % a in star]
+            if got == [want]:
+                ok, why = True, 'options from --%s' % want.replace('_', '-')
+            elif got and want not in got:
+                ok = False
+                why = 'the %s `%s` is handed the options of --%s; the command line gives its options with --%s, which are ' \
+                      'silently ignored' % ('reader' if want == 'src_opts' else 'writer', unparse(x.func)[:50],
+                                            got[0].replace('_', '-'), want.replace('_', '-'))
+            else:
+                ok, why = None, 'option dictionary `%s` not traced to a command line attribute' % star[:50]
+            obs.append(Ob('R-OPTSIDE', f.fq, 'dispatch `%s` receives the options of its own side' % unparse(x.func)[:60],
+                          ok, why, construct='optside:%s:%s' % (unparse(x.func)[:60], star[:40]), line=x.lineno))
+    if n < 8:
+        raise Unrecognised('R-OPTSIDE: %d dispatch sites with option dictionaries (at least 8 expected)' % n)
+    return obs, {'dispatch_sites': n}
+
+
+# ------------------------------------------------------------------------------------ R-PERTREE
+
+def r_pertree(prog, tier):
+    """In the drivers' tree loops, what is done with a tree (task, extraction, oracle, writer) does not depend on the
+    running sentence counter: a progress test like `cnt % 100 == 0` may guard the progress message only."""
+    obs = []
+    nsites = 0
+    for mod in ('transform', 'grammar', 'transitions', 'treeanalysis'):
+        f = prog.func(mod, 'run')
+        cfg = f.cfg
+        _ALIAS_FUNC[0] = f
+        for lp in [n for n in cfg.eval_nodes() if n.kind == 'iter' and isinstance(n.ast.iter, ast.Call)]:
+            d = _getattr_dispatch(lp.ast.iter)
+            if not d or f.module.aliases.get(d[0]) != 'treeinput' or not isinstance(lp.ast.target, ast.Name):
+                continue
+            tv = lp.ast.target.id
+            counters = set()
+            for m in cfg.eval_nodes():
+                if m.kind == 'stmt' and isinstance(m.ast, ast.AugAssign) and isinstance(m.ast.target, ast.Name) \
+                        and lp.id in m.loops and unparse(m.ast.value) == '1':
+                    counters.add(m.ast.target.id)
+            for m in cfg.eval_nodes():
+                if m.kind != 'stmt' or lp.id not in m.loops:
+                    continue
+                uses = [x for x in walk_own(m.ast) if isinstance(x, ast.Call) and any(
+                    isinstance(a, ast.Name) and a.id == tv for a in x.args)
+                    and unparse(x.func) not in ('print', 'len', 'str', 'repr')]
+                if isinstance(m.ast, ast.Expr) and isinstance(m.ast.value, ast.Call) and any(
+                        isinstance(a, ast.Name) and a.id == tv for a in m.ast.value.args):
+                    uses = uses or [m.ast.value]
+                if not uses:
+                    continue
+                nsites += 1
+                bad = None
+                for a in cfg.assumes_at(m.id):
+                    if lp.id not in a.loops:
+                        continue
+                    names = set(x.id for x in ast.walk(a.ast) if isinstance(x, ast.Name))
+                    if names & counters and tv not in names:
+                        bad = a
+                obs.append(Ob('R-PERTREE', f.fq, 'per-tree step `%s` does not depend on the sentence counter' % unparse(uses[0])[:60],
+                              False if bad is not None else True,
+                              'guarded by `%s%s`: only some sentences are processed' % ('' if bad.pol else 'not ', unparse(bad.ast))
+                              if bad is not None else 'not under a condition on %s' % (sorted(counters) or 'a counter'),
+                              construct='pertree:' + unparse(uses[0])[:60], line=m.lineno))
+    if nsites < 4:
+        raise Unrecognised('R-PERTREE: %d per-tree steps found in the drivers (at least 4 expected)' % nsites)
+    return obs, {'per_tree_steps': nsites}
